@@ -295,7 +295,8 @@ def rule_bounds(ctx, mod, ci):
                     if isinstance(x, ast.Attribute) and isinstance(x.value, ast.Name) and x.value.id == "self" and x.attr in writers:
                         writers[x.attr].add(mname)
     for attr, hi in (("velocity", 127), ("channel", 15)):
-        extra = sorted(writers[attr] - setters[attr] - {"set_note"})
+        # (set_note and the constructor have call shapes of their own: decided below and in rule_ctor_bounds)
+        extra = sorted(writers[attr] - setters[attr] - {"set_note", "__init__"})
         ok, why = True, ""
         for mname in extra:
             # a writer this rule has no call shape for: every parameter an unknown integer
